@@ -1548,6 +1548,21 @@ impl DhtCoreEngine {
     }
 }
 
+/// Verification hooks (C16): the crate-private peer selections of `store` / `retrieve`,
+/// callable with any count.
+#[cfg(feature = "verif-hooks")]
+impl DhtCoreEngine {
+    /// `select_query_peers` (the selection `retrieve` queries).
+    pub async fn verif_select_query_peers(&self, key: &DhtKey, count: usize) -> Vec<NodeInfo> {
+        self.select_query_peers(key, count).await
+    }
+
+    /// `select_storage_peers` (the selection `store` reports in its receipt).
+    pub async fn verif_select_storage_peers(&self, key: &DhtKey, count: usize) -> Vec<NodeInfo> {
+        self.select_storage_peers(key, count).await
+    }
+}
+
 #[cfg(test)]
 mod tests {
     use super::*;
